@@ -44,7 +44,9 @@ pub fn probe(r: &mut Runner, _step: &Step) {
             r.ev.count("skip/vamm_closed_or_unregistered");
             continue;
         }
-        if vo.margin_engine != r.w.addrs.engine || vo.insurance_fund != r.w.addrs.insurance_fund {
+        // (the vAMM's own insurance-fund field - who may open and close it - has no part in the statement's premises:
+        // a market registered with the engine's fund is probed whatever that field names)
+        if vo.margin_engine != r.w.addrs.engine {
             continue;
         }
         let va = r.w.addrs.vamms[v].clone();
@@ -180,7 +182,16 @@ pub fn probe(r: &mut Runner, _step: &Step) {
         let liquidator = ["liquidator", "stranger", "keeper"][(r.steps_done + v) % 3].to_string();
         // enough for any shortfall of this liquidation: the bad debt plus the penalty, twice over
         let shortfall_bound = ((-e_spot).max(0) as u128).saturating_add(mul_div(qw, eng.liq_fee, d).unwrap_or(0)).saturating_add(vault);
-        let topup = r.w.cfg.trader_balance.saturating_mul(40).max(shortfall_bound.saturating_mul(2));
+        // every other probe establishes the precondition tightly: the fund ends up holding just what this liquidation
+        // can ask of it at most (the magnitude of the equity plus the whole penalty), if it does not hold more already
+        let tight = (r.steps_done + v) % 2 == 1;
+        let topup = if tight {
+            let most = e_spot.unsigned_abs().saturating_add(mul_div(qw, eng.liq_fee, d).unwrap_or(0)).saturating_add(2);
+            most.saturating_sub(r.obs.bal(&r.w.addrs.insurance_fund)).max(1)
+        } else {
+            r.w.cfg.trader_balance.saturating_mul(40).max(shortfall_bound.saturating_mul(2))
+        };
+        r.ev.count(if tight { "probe_fund_topped_up_tightly" } else { "probe_fund_topped_up_amply" });
         let nv = r.w.addrs.vamms.len();
         let ifund = r.w.addrs.insurance_fund.clone();
         let tt = t.clone();
